@@ -516,6 +516,21 @@ fn suite_termops(out: &mut Out, tier: &str, rng: &mut Rng) {
         let b = if rng.chance(1, 2) { a.clone() } else { expand(rng, &a, 0) };
         out.line(format!("iso\t{}\t{}\t{}", ser(&a), ser(&b), a.is_isomorphic_to(&b)));
     }
+    // the predicates do not depend on how far away the free variables are: move every free index by 2^32-1 .. 2^48
+    {
+        let us = universe(tier, 5, 5, 3);
+        for t in us.iter().chain(randoms(rng, 300, 25, true).iter()) {
+            for &bb in BS.iter() {
+                let big = shift_free(t, bb, 0);
+                let ok = big.has_free_variables() == t.has_free_variables()
+                    && (has_ud(t) || big.is_supercombinator() == t.is_supercombinator())
+                    && big.max_depth() == t.max_depth()
+                    && big.is_isomorphic_to(&big.clone())
+                    && big.is_isomorphic_to(t) == (big == *t);
+                out.line(format!("metapred\t{}\t{}\t{}", bb, ser(t), ok));
+            }
+        }
+    }
     // pairs that only differ in how their De Bruijn rendering would be split into indices (17 = "1" "1"? no: 0x11)
     for _ in 0..(if tier == "thorough" { 3000 } else { 400 }) {
         let b = 2 + rng.below(14) as usize;
